@@ -1,7 +1,7 @@
 (* C04 — property theorems only: each closed by [exact] and followed by Print Assumptions. *)
 From Coq Require Import List Bool Arith NArith ZArith.
-From AV Require Import Model.C09_Layout Model.C04_Dict Model.C04_Walk Model.C04_Frame Model.C04_Flight Model.C04_Rebase.
-From AV Require Import Proofs.C04_Dict Proofs.C04_Walk Proofs.C04_Frame Proofs.C04_Flight Proofs.C04_Rebase.
+From AV Require Import Base.Bytes Model.C09_Layout Model.C04_Dict Model.C04_Walk Model.C04_Frame Model.C04_Flight Model.C04_Rebase Model.C04_Write.
+From AV Require Import Proofs.C04_Dict Proofs.C04_Walk Proofs.C04_Frame Proofs.C04_Flight Proofs.C04_Rebase Proofs.C04_Write.
 Import ListNotations.
 
 (* ---------------------------------------------------------------- dictionaries ------------------- *)
@@ -141,6 +141,13 @@ Theorem truncate_logical : forall (b : list N) (w off len i : nat),
   fixed_slot (truncate_fixed b w off len) w i = fixed_slot b w (off + i).
 Proof. exact truncate_fixed_slots. Qed.
 Print Assumptions truncate_logical.
+
+(* validity bitmaps and boolean values of sliced arrays: Buffer::bit_slice (shared bytes when the bit offset is a
+   multiple of 8, re-packed bits otherwise) keeps exactly the addressed bits, for every buffer, offset and length *)
+Theorem bitmap_truncation : forall (b : list N) (off len i : nat), i < len ->
+  bit_at (bit_slice b off len) i = bit_at b (off + i).
+Proof. exact bit_slice_spec. Qed.
+Print Assumptions bitmap_truncation.
 
 (* ---------------------------------------------------------------- Flight split ------------------- *)
 (* split_batch_for_grpc_response, for every batch, buffer size and size limit (a zero limit divides by zero in
